@@ -211,6 +211,13 @@ fn scalars() -> Vec<Scalar> {
             }
         }
     }
+    // extreme digits of every window: 2^w - 1 (digit 2^w - 1, the last table slot), 2^w + 1 (digit
+    // -(2^w - 1)), 2^w - 3 (the slot before the last)
+    for w in 2usize..=22 {
+        push(sub_small(bit(w), 1), &format!("ext{}_0", w));
+        push(add_small(bit(w), 1), &format!("ext{}_1", w));
+        push(sub_small(bit(w), 3), &format!("ext{}_2", w));
+    }
     push(bit(255), "bit255");
     push([u64::MAX; 4], "2^256-1");
     push(bits(&[255, 254, 0]), "bits255+254+0");
@@ -331,6 +338,23 @@ fn scalars() -> Vec<Scalar> {
         pushg(l.0, l.1);
     }
     v
+}
+
+/// pool index of the extreme-digit scalar `j` (0: 2^w - 1, 1: 2^w + 1, 2: 2^w - 3) of window `w`
+pub fn ext_index(w: usize, j: usize) -> usize {
+    static M: OnceLock<Vec<usize>> = OnceLock::new();
+    let m = M.get_or_init(|| {
+        let sc = &spools().scalars;
+        let mut v = vec![0usize; 23 * 3];
+        for w in 2usize..=22 {
+            for j in 0..3 {
+                let name = format!("ext{}_{}", w, j);
+                v[w * 3 + j] = sc.iter().position(|s| s.name == name).expect("ext scalar in pool");
+            }
+        }
+        v
+    });
+    m[w.clamp(2, 22) * 3 + j % 3]
 }
 
 /// number of generated structured scalars appended to the hand-made pool
